@@ -60,7 +60,12 @@ def register(R):
                 index_of(tr, [r for r in tr[:index_of(tr, e)] if r.kind == 'read' and r.name == '_status'][-1]) >
                 max([index_of(tr, x) for x in calls(tr, 'Task._get_all_main_kwargs') + calls(tr, 'Task._wait_on_dependent_futures')] or [-1])
                 and len(calls(tr, 'Task._get_all_main_kwargs')) == 1 for e in em)),
-            'done_callbacks_always_run': B(len(loops) == 1),
+            'done_callbacks_always_run': B(len(loops) == 1 and loops[0].iterable is c.oldf('_done_callbacks')),
+            # each of the task's done callbacks is invoked, exactly once, in list order (they release the final IO task /
+            # count down the invoker / resubmit: a skipped one leaves the transfer hanging)
+            'each_done_callback_invoked_exactly_once': (B(all(
+                len([x for x in alt if x.kind == 'ext']) == 1 and [x for x in alt if x.kind == 'ext'][0].recv is item
+                for lp in loops for alt, item in zip(lp.alts, lp.items))), ['C04', 'C03', 'C08', 'C06']),
             'announce_iff_final': z3.If(is_final, B(len(ann) == 1), B(len(ann) == 0)),
             'announce_is_last': B(all(index_of(tr, a) == len(tr) - 1 for a in ann)),
             'callbacks_before_announce': B(all(index_of(tr, a) > index_of(tr, loops[0]) for a in ann) if loops else False),
